@@ -38,7 +38,7 @@ LEVEL_TEXT = 'exploration: sampled instances and mutation sites per structure; a
 LEVEL_NOTE = 'trusted: the harness reading of the structure tables (hv/tables.py, hv/msggen.py) and its conformance rules listed under assumptions'
 
 TOL = 2
-MUTATIONS = ('none', 'remove-required', 'exceed-max', 'foreign-segment', 'unknown-field', 'unknown-component')
+MUTATIONS = ('none', 'remove-required', 'exceed-max', 'foreign-segment', 'unknown-field', 'unknown-component', 'split-leaf')
 
 
 def _exc(e):
@@ -118,6 +118,11 @@ def walk(v, el, ref, sites, depth=0):
     elif cls in ('Field', 'Component'):
         ch = T.ref_children(v, ref)
         if not ch:
+            par = el.parent
+            if ref[2] and ref[2] != 'varies' and T.is_base(v, ref[2]) and len(el.children.list) == 1 and par is not None and \
+                    len([c for c in par.children.list if c.name == el.name]) == 1 and not (par.name == 'MSH' and T.idx_of(el.name) in (1, 2)):
+                # a populated leaf (field or component of a base datatype): it cannot hold a second component / sub-component
+                sites.setdefault('split-leaf', []).append((el, cls))
             return
         if cls == 'Field' and len(el.children.list) > 0:
             sites.setdefault('unknown-component', []).append((el, None))
@@ -185,6 +190,13 @@ def apply_mutation(v, m, msg, kind, pick):
         def undo():
             seg.value = original
         return ('unnamed field after the last defined one of %r' % seg, seg.name, undo)
+    if kind == 'split-leaf':
+        leaf, cls = site
+        par, name = leaf.parent, leaf.name
+        original = leaf.to_er7()
+        setattr(par, name, original + ('^' if cls == 'Field' else '&') + 'zz')
+        return ('second %s in the base-datatype %s %r' % ('component' if cls == 'Field' else 'sub-component', cls.lower(), leaf), name,
+                lambda: setattr(par, name, original))
     if kind == 'unknown-component':
         field, _ = site
         c = Component(datatype='ST', version=v, validation_level=TOL)
@@ -240,12 +252,21 @@ def consistency(msg, v, text_for_force=None):
         fd, path = tempfile.mkstemp(prefix='hv-c04-', suffix='.txt', dir='/var/tmp')
         os.close(fd)
         try:
+            # the path holds the report of an earlier validation, or does not exist yet
+            stale = len(want) % 2 == 0
+            if stale:
+                with open(path, 'w') as f:
+                    f.write('Error: line of an earlier report\nWarning: another one\n')
+            else:
+                os.remove(path)
             msg.validate(report_file=path, return_errors=True)
-            got = open(path).read()
+            got = open(path).read() if os.path.exists(path) else None
             if got != want:
-                out.append(('C04-report-file-path-differs', '%r vs %r' % (got[:300], want[:300])))
+                out.append(('C04-report-file-path-differs:%s' % ('path-held-an-earlier-report' if stale else 'new-path'),
+                            '%r vs %r' % (got if got is None else got[:300], want[:300])))
         finally:
-            os.remove(path)
+            if os.path.exists(path):
+                os.remove(path)
     except Exception as e:
         out.append(('C04-report-file-raises:%s' % type(e).__name__, _exc(e)))
     if text_for_force is not None:
